@@ -84,11 +84,42 @@ def translate(repo):
     return tr.generate(repo)
 
 
-def window_classes():
-    from pydrobert.speech import filters
+WINDOW_ALIASES = dict(bartlett=["bartlett", "triangular", "tri"], blackman=["blackman", "black"], hamming=["hamming"],
+                      hann=["hanning", "hann"], gamma=["gamma"])
 
-    return dict(bartlett=filters.BartlettWindow, blackman=filters.BlackmanWindow, hamming=filters.HammingWindow,
-                hann=filters.HannWindow), filters.GammaWindow
+
+class Maker:
+    """hands out window objects the ways users get them, in turn: by calling the class, and by every documented alias
+    through WindowFunction.from_alias - after filter banks and a computer have been built by alias too (some aliases,
+    'tri' / 'triangular', name a filter bank as well as a window: resolution must stay within the family asked)"""
+
+    def __init__(self, cls, aliases):
+        from pydrobert.speech import filters
+
+        self.cls, self.routes, self.n, self.family = cls, [None] + list(aliases), 0, filters.WindowFunction
+
+    def __call__(self, *args):
+        route = self.routes[self.n % len(self.routes)]
+        self.n += 1
+        return self.cls(*args) if route is None else self.family.from_alias(route, *args)
+
+
+def window_classes():
+    from pydrobert.speech import filters, compute
+
+    # other families first: banks by alias, and a computer whose nested configuration names a window by alias
+    for al in ("tri", "triangular", "gabor", "fbank"):
+        try:
+            filters.LinearFilterBank.from_alias(al, *([] if al == "fbank" else ["mel"]))
+        except Exception:
+            pass
+    try:
+        compute.FrameComputer.from_alias("stft", {"name": "tri", "scaling_function": "mel", "num_filts": 4}, window_function="hamming")
+    except Exception:
+        pass
+    np_cls = {k: Maker(c, WINDOW_ALIASES[k]) for k, c in dict(bartlett=filters.BartlettWindow, blackman=filters.BlackmanWindow,
+                                                               hamming=filters.HammingWindow, hann=filters.HannWindow).items()}
+    return np_cls, Maker(filters.GammaWindow, WINDOW_ALIASES["gamma"])
 
 
 def util_mod():
@@ -379,9 +410,15 @@ def run(ctx, driver):
                 np_cls[kind]().get_impulse_response(width)[...] = -535.0
             except (ValueError, TypeError):
                 pass
-            w = np_cls[kind]().get_impulse_response(width)
             case = dict(window=kind, width=width)
             ctx.case(case, nontrivial=width > 0, kind="win_" + kind)
+            try:
+                w = np_cls[kind]().get_impulse_response(width)
+            except Exception as e:
+                ctx.violation(dict(case, route=np_cls[kind].routes[(np_cls[kind].n - 1) % len(np_cls[kind].routes)]), "a window of `width` samples",
+                              "%s: %s" % (type(e).__name__, str(e)[:150]), "every window (built by class or by any documented alias) returns its samples",
+                              tags=dict(clause="window_raises", window=kind))
+                continue
             ctx.count("width_0" if width == 0 else "width_1_2" if width <= 2 else "width_3_64" if width <= 64
                       else "width_65_1024" if width <= 1024 else "width_1025_4096")
             report(ctx, case, oracle_np_window(kind, width, w))
